@@ -266,6 +266,67 @@ void record_wide(const std::string& outdir, std::uint64_t seed, int executions, 
   }
 }
 
+// A dense complex on 10 vertices: every 5-subset is a maximal simplex (252 of them, each vertex in 126 > n^2), inserted
+// in random order without a read; then faces are re-inserted, maximal simplices removed and random subsets queried.
+// The recorded executions of `record` stay on 7 labels and those of `record_wide` are sparse: counts of maximal
+// simplices around a vertex beyond a few dozen only occur here.
+template <class Model>
+void record_dense(const std::string& outdir, std::uint64_t seed) {
+  std::string nm = Model::name();
+  std::replace(nm.begin(), nm.end(), '/', '_');
+  Trace tr(outdir + "/toplex_dense_" + nm + ".ndjson");
+  std::mt19937_64 rng(seed * 9176 + 5 + std::hash<std::string>()(nm));
+  auto rnd = [&](int n) { return static_cast<int>(rng() % static_cast<std::uint64_t>(n)); };
+  using L = typename Model::L;
+  const int n = 10, k = 5;
+  Model m;
+  tr.emit(bj::object{{"op", "reset"}});
+  std::vector<std::vector<int>> subs;
+  for (unsigned mask = 0; mask < (1u << n); ++mask) {
+    if (__builtin_popcount(mask) != k) continue;
+    std::vector<int> sq;
+    for (int v = 0; v < n; ++v) if (mask & (1u << v)) sq.push_back(v);
+    subs.push_back(sq);
+  }
+  std::shuffle(subs.begin(), subs.end(), rng);
+  auto random_subset = [&](int lo, int hi) {
+    std::vector<int> sq;
+    int sz = lo + rnd(hi - lo + 1);
+    while (static_cast<int>(sq.size()) < sz) { int v = rnd(n); if (std::find(sq.begin(), sq.end(), v) == sq.end()) sq.push_back(v); }
+    std::sort(sq.begin(), sq.end());
+    return sq;
+  };
+  auto step = [&](bj::object act, bool read) {
+    crash_ctx().where = nm + " dense " + bj::serialize(act);
+    bj::object got;
+    try { got = m.apply(act); } catch (const std::exception& e) { got["exception"] = e.what(); }
+    bj::object ev = act;
+    for (auto& p : got) ev[p.key()] = p.value();
+    if (read && !got.contains("exception")) {
+      try {
+        bj::array qs;
+        for (int qi = 0; qi < 6; ++qi) {
+          std::vector<int> sq = random_subset(1, 6);
+          bj::object q{{"s", jarr(sq)}, {"mem", m.tm.membership(L::lab(sq))}};
+          if constexpr (Model::lazy) { if (sq.size() >= 2) q["afi"] = m.tm.all_facets_inside(L::lab(sq)); }
+          else q["maxq"] = m.tm.maximality(L::lab(sq));
+          qs.push_back(q);
+        }
+        ev["q"] = qs;
+      } catch (const std::exception& e) { ev["exception"] = e.what(); }
+    }
+    tr.emit(ev);
+    return !ev.contains("exception");
+  };
+  for (auto& sq : subs) if (!step({{"op", "insert"}, {"s", jarr(sq)}}, false)) return;
+  for (int i = 0; i < 14; ++i) {
+    bool ok;
+    if (i % 3 == 2) ok = step({{"op", "remove"}, {"s", jarr(subs[static_cast<std::size_t>(rnd(static_cast<int>(subs.size())))])}}, true);
+    else ok = step({{"op", "insert"}, {"s", jarr(random_subset(2, 4))}}, true);
+    if (!ok) return;
+  }
+}
+
 int main(int argc, char** argv) {
   if (argc < 5) { std::cerr << "usage: toplex_record outdir seed executions steps" << std::endl; return 2; }
   std::string outdir = argv[1];
@@ -279,5 +340,7 @@ int main(int argc, char** argv) {
   record<LazyModel<TLabelGap>>(outdir, seed, executions, steps, true);
   record_wide<LazyModel<TLabelId>>(outdir, seed, 2 * executions, 60);
   record_wide<LazyModel<TLabelGap>>(outdir, seed, 2 * executions, 60);
+  record_dense<EagerModel<TLabelId>>(outdir, seed);
+  if (std::getenv("VF_DENSE_LAZY")) record_dense<LazyModel<TLabelId>>(outdir, seed);   // (a minute of TLC: thorough tier)
   return 0;
 }
